@@ -62,21 +62,28 @@ Definition hk_arr (key : bytes) :=
   fix go (i : N) (l : list value) : list bytes * Z :=
     match l with
     | [] => ([], 0)
-    | x :: r => let '(k1, n1) := hash_keys (key ++ dot :: dec_digits i) x in
+    | x :: r => let '(k1, n1) := hash_keys (comp key (dec_digits i)) x in
                 let '(k2, n2) := go (i + 1)%N r in (k1 ++ k2, n1 + n2)
     end.
 Definition hk_doc (key : bytes) :=
   fix go (l : list (bytes * value)) : list bytes * Z :=
     match l with
     | [] => ([], 0)
-    | (k, x) :: r => let '(k1, n1) := hash_keys (key ++ dot :: k) x in
+    | (k, x) :: r => let '(k1, n1) := hash_keys (comp key k) x in
                      let '(k2, n2) := go r in (k1 ++ k2, n1 + n2)
     end.
 
-Lemma hash_keys_VArr : forall key a, hash_keys key (VArr a) = hk_arr key 0%N a.
-Proof. reflexivity. Qed.
-Lemma hash_keys_VDoc : forall key d, hash_keys key (VDoc d) = hk_doc key d.
-Proof. reflexivity. Qed.
+Lemma hash_keys_VArr : forall key a,
+  hash_keys key (VArr a) = ((key ++ mark_arr) :: fst (hk_arr key 0%N a), snd (hk_arr key 0%N a)).
+Proof. intros key a. cbn [hash_keys]. fold (hk_arr key). destruct (hk_arr key 0%N a). reflexivity. Qed.
+Lemma hash_keys_VDoc : forall key d,
+  hash_keys key (VDoc d) = ((key ++ mark_doc) :: fst (hk_doc key d), snd (hk_doc key d)).
+Proof. intros key d. cbn [hash_keys]. fold (hk_doc key). destruct (hk_doc key d). reflexivity. Qed.
+Lemma hash_keys_fields_hk : forall d, hash_keys_fields d = hk_doc [] d.
+Proof.
+  induction d as [|[k x] r IH]; [reflexivity|].
+  cbn [hash_keys_fields hk_doc]. fold (hk_doc []). rewrite IH. reflexivity.
+Qed.
 
 Definition hcount_P (v : value) : Prop := forall key, snd (hash_keys key v) = Z.of_nat (length (flatten v)).
 
@@ -85,8 +92,8 @@ Lemma hcount_doc_F : forall d, Forall (fun kv => hcount_P (snd kv)) d ->
 Proof.
   intros d HF key. induction HF as [|[k x] r Hx HF IH]; [reflexivity|].
   cbn [snd] in Hx. cbn [hk_doc flatten_doc]. fold (hk_doc key).
-  specialize (Hx (key ++ dot :: k)).
-  destruct (hash_keys (key ++ dot :: k) x) as [k1 n1]. destruct (hk_doc key r) as [k2 n2].
+  specialize (Hx (comp key k)).
+  destruct (hash_keys (comp key k) x) as [k1 n1]. destruct (hk_doc key r) as [k2 n2].
   cbn [snd] in *. rewrite app_length, Nat2Z.inj_add. lia.
 Qed.
 
@@ -95,24 +102,25 @@ Lemma hcount_arr_F : forall a, Forall hcount_P a ->
 Proof.
   intros a HF key. induction HF as [|x r Hx HF IH]; intros i; [reflexivity|].
   cbn [hk_arr flatten_arr]. fold (hk_arr key).
-  specialize (Hx (key ++ dot :: dec_digits i)). specialize (IH (i + 1)%N).
-  destruct (hash_keys (key ++ dot :: dec_digits i) x) as [k1 n1]. destruct (hk_arr key (i + 1)%N r) as [k2 n2].
+  specialize (Hx (comp key (dec_digits i))). specialize (IH (i + 1)%N).
+  destruct (hash_keys (comp key (dec_digits i)) x) as [k1 n1]. destruct (hk_arr key (i + 1)%N r) as [k2 n2].
   cbn [snd] in *. rewrite app_length, Nat2Z.inj_add. lia.
 Qed.
 
 Lemma hcount_value : forall v, hcount_P v.
 Proof.
   induction v using value_ind'; unfold hcount_P; intros key; try reflexivity.
-  - rewrite hash_keys_VDoc, flatten_VDoc. apply hcount_doc_F. assumption.
-  - rewrite hash_keys_VArr, flatten_VArr. apply hcount_arr_F. assumption.
+  - rewrite hash_keys_VDoc, flatten_VDoc. cbn [snd]. apply hcount_doc_F. assumption.
+  - rewrite hash_keys_VArr, flatten_VArr. cbn [snd]. apply hcount_arr_F. assumption.
 Qed.
 
 Lemma hash_keys_doc_count : forall d, snd (hash_keys_doc d) = Z.of_nat (length (flatten_doc d)).
 Proof.
-  induction d as [|[k x] r IH]; [reflexivity|].
-  cbn [hash_keys_doc flatten_doc]. pose proof (hcount_value x (dot :: k)) as Hx.
-  destruct (hash_keys (dot :: k) x) as [k1 n1]. destruct (hash_keys_doc r) as [k2 n2].
-  cbn [snd] in *. rewrite app_length, Nat2Z.inj_add. lia.
+  intros d. unfold hash_keys_doc. rewrite hash_keys_fields_hk.
+  pose proof (hcount_doc_F d) as H.
+  assert (HF : Forall (fun kv : bytes * value => hcount_P (snd kv)) d).
+  { apply Forall_forall. intros kv _. apply hcount_value. }
+  specialize (H HF []). destruct (hk_doc [] d) as [ks n]. exact H.
 Qed.
 
 (* the second component of the signature is the metric count *)
